@@ -26,6 +26,12 @@ package perunio
 
 // BigInt.Decode: length byte, then exactly that many bytes; lengths above MaxBigIntLength are rejected.
 // ghost("setbyteslen") is the byte length of the last big integer built with SetBytes.
+// decodeString consumes exactly the two length bytes and the string's bytes (C16: nothing of what follows on the stream).
+//@ func decodeString
+//@   requires r != nil && s != nil
+//@   modifies s.*, ghost("rpos"), ghost("rfail")
+//@   ensures streaming() && result == nil ==> rpos(r) == old(rpos(r)) + 2 + len(*s)
+
 //@ func (*BigInt).Decode
 //@   requires reader != nil
 //@   modifies b.Int, val(b.Int), ghost("setbyteslen"), ghost("rpos")
